@@ -209,6 +209,7 @@ StratUpdate(C, im, s, d) ==
                     \/ ~IsZero(RSub(im3.val[s], val))
                     \/ ~IsZero(RSub(im3.ntl[s], acc.ntl))
                     \/ ~IsZero(RSub(im3.rows["flows"][s][t], im3.nfl[s]))
+                    \/ (C.bidoffer /\ ~IsZero(RSub(im3.bop[s], acc.bop)))
           bottom == RAdd(im3.lval[s], im3.nfl[s])
           ret    == IF ~IsZero(bottom) THEN RSub(RDiv(val, bottom), One)
                     ELSE IF IsZero(val) THEN Zero ELSE NaN    \* ZeroDivisionError
